@@ -285,8 +285,12 @@ theorem sim_expire (k ms) : Sim cfg w t (.expire k ms) := by
 theorem sim_setLock (k tok ms) : Sim cfg w t (.setLock k tok ms) := by
   obtain ⟨rfl, hc⟩ := h
   cases hs : cfg.suppress <;> cases ms with
-  | zero => redis_simp; exact hc
-  | succ n => cases hk : w.srv.ks.present k <;> redis_simp <;> exact hc
+  | zero =>
+    have hp : pxOf (some 0) = none := rfl
+    cases hk : w.srv.ks.present k <;> redis_simp <;> exact hc
+  | succ n =>
+    have hp : pxOf (some (n + 1)) = some (n + 1) := rfl
+    cases hk : w.srv.ks.present k <;> redis_simp <;> exact hc
 
 theorem sim_deleteMany (ks) : Sim cfg w t (.deleteMany ks) := by
   obtain ⟨rfl, hc⟩ := h
